@@ -171,10 +171,30 @@ pub fn run(ctx: &Ctx) -> Report {
     total.merge(st);
     total.exhaustive_parts.push("all blank strings up to length 4 (quick) / 6 (thorough) over {space, tab, CR, LF}".into());
 
+    // long flat chains: redundant parentheses around a leading part must not change the tree
+    let mut stl = Stats::new();
+    for n in [12usize, 255, 256, 257, 300] {
+        for (op, sp) in [(" -a ", "and"), (" ", "implicit"), (" -o ", "or"), (" , ", "list")] {
+            let words: Vec<String> = (0..n).map(|i| if i % 3 == 0 { "-true".to_string() } else { format!("-uid {i}") }).collect();
+            let flat = words.join(op);
+            for k in [1usize, 2, n / 2, n - 1] {
+                let grouped = format!("( {} ){}{}", words[..k].join(op), op, words[k..].join(op));
+                let v = match (parse_pair(&flat), parse_pair(&grouped)) {
+                    (Ok(Ok(a)), Ok(Ok(b))) if a == b => Verdict::Pass { nt: true, class: "long chain: parentheses around a leading part" },
+                    (Ok(Ok(_)), Ok(Ok(_))) => Verdict::Fail(format!("chain of {n} operands joined by {sp}: parentheses around the first {k} change the tree")),
+                    (a, b) => Verdict::Fail(format!("chain of {n} operands joined by {sp}: flat -> {}, grouped -> {}", if matches!(a, Ok(Ok(_))) { "ok" } else { "rejected" }, if matches!(b, Ok(Ok(_))) { "ok" } else { "rejected" })),
+                };
+                stl.record(&v, stable_hash(&(n, sp, k)), true, || json!({"kind": "long-chain", "operands": n, "operator": sp, "grouped_prefix": k}));
+            }
+        }
+    }
+    total.merge(stl);
     let cases = ctx.tier.pick(400_000u32, 4_000_000u32);
     let shards = 16;
     let rnd = run_shards(shards, |shard| {
         let mut st = Stats::new();
+        // rejected inputs first, on the same thread (leaked parser state must not matter)
+        poison_parses(40);
         // scan-wide options may also stand inside the expression (never as its first word: that
         // would make them part of the leading run); their spelling variants must agree as well
         let leaf = prop_oneof![14 => gen::text_leaf(), 1 => Just(E::G(Glob::Depth)), 1 => gen::count_u32().prop_map(|n| E::G(Glob::Threads(n)))];
